@@ -772,9 +772,10 @@ class Cas:
 
             existing_fs = all_fs.get(fs.xmiID)
             if existing_fs is not None and existing_fs is not fs:
+                # Only the types are named: printing the feature structures would not end for cyclic ones
                 raise ValueError(
                     "Duplicate FS id [{fsId}] used for [{fs1}] and [{fs2}]".format(
-                        fsId=fs.xmiID, fs1=existing_fs, fs2=fs
+                        fsId=fs.xmiID, fs1=existing_fs.type.name, fs2=fs.type.name
                     )
                 )
 
